@@ -331,3 +331,10 @@ B("c06-binpack-lost-negation", "C06", "C06.R7", (P + "bin_pack/env.py", "BinPack
 B("c04-flatpack-legal-or", "C04", "C04.R10", (P + "flat_pack/env.py", "FlatPack._is_legal_action", "expr", "~placed_blocks[block_idx] & (jnp.max(placed_mask) <= 1)", "~placed_blocks[block_idx] | (jnp.max(placed_mask) <= 1)"))
 B("c06-tsp-mask-not-negated", "C06", "C06.R7", (R + "tsp/env.py", "TSP._state_to_observation", "expr", "~state.visited_mask", "state.visited_mask"))
 T("c06-twin-binpack-logical", "C06", (P + "bin_pack/env.py", "BinPack._get_action_mask", "expr", "~item_placed & item_mask & ems_mask & item_fits_in_ems", "jnp.logical_and(jnp.logical_not(item_placed), item_mask & ems_mask & item_fits_in_ems)"))
+
+# ---------------------------------------------------------------- displacement tables (C09.R9 / C04.R11)
+B("c04-cleaner-mask-minus-move", "C04", "C04.R11", (R + "cleaner/env.py", "Cleaner._compute_action_mask", "expr", "agent_location + move", "agent_location - move"))
+B("c09-lbf-minus-moves", "C09", "C09.R9", (R + "lbf/utils.py", "simulate_agent_movement", "expr", "agent.position + MOVES[action]", "agent.position - MOVES[action]"))
+B("c09-sokoban-box-minus", "C09", "C09.R9", (R + "sokoban/env.py", "Sokoban.move_agent", "expr", "next_location + MOVES[action]", "next_location - MOVES[action]"))
+T("c09-twin-lbf-commuted", "C09", (R + "lbf/utils.py", "simulate_agent_movement", "expr", "agent.position + MOVES[action]", "MOVES[action] + agent.position"))
+B("c04-cvrp-mask-lost-negation", "C04", None, (R + "cvrp/env.py", "CVRP._state_to_observation", "expr", "~state.visited_mask", "state.visited_mask"))
